@@ -205,11 +205,9 @@ pub const SIGMA_THOROUGH: [char; 22] = [
 ];
 pub const SIGMA_QUICK: [char; 11] = [' ', '\u{a0}', '\u{200b}', 'a', 'A', 'ß', 'İ', 'Σ', '0', 'x', '🦀'];
 
-pub fn sigma(tier: Tier) -> &'static [char] {
-    match tier {
-        Tier::Quick => &SIGMA_QUICK,
-        Tier::Thorough => &SIGMA_THOROUGH,
-    }
+/// both tiers use the full 22-character alphabet; they differ in the length bound (3 vs 4)
+pub fn sigma(_tier: Tier) -> &'static [char] {
+    &SIGMA_THOROUGH
 }
 
 pub fn strings_upto(alpha: &[char], l: usize) -> Vec<String> {
